@@ -61,7 +61,16 @@ def WA.isConst : WA → Bool
   | .wconst _ => true
   | _ => false
 
+/-- linear expressions (stage 8): every operator has at least one operand that is a constant, a variable, an
+    element or a register — `e ∘ y` or `x ∘ e`; the value of the compound operand is in the accumulator -/
+inductive LExpr where
+  | pair (a : RA) (op : BOp) (b : RA)
+  | left (e : LExpr) (op : BOp) (y : RA)
+  | right (x : RA) (op : BOp) (e : LExpr)
+  deriving Repr, DecidableEq, Inhabited
+
 inductive RStmt where
+  | lin (v : LV) (e : LExpr)                       -- `v = e` (stage 8)
   | asg (v : LV) (a : RA)
   | bin (v : LV) (op : BOp) (a b : RA)
   | opasg (v : LV) (op : BOp) (a : RA)
@@ -82,10 +91,23 @@ def RA.isReg : RA → Bool
   | _ => false
 
 def RStmt.target : RStmt → LV
-  | .asg v _ | .bin v _ _ _ | .opasg v _ _ | .inc v | .dec v | .chain v _ _ _ _ => v
+  | .asg v _ | .bin v _ _ _ | .opasg v _ _ | .inc v | .dec v | .chain v _ _ _ _ | .lin v _ => v
   | .asgW s _ | .binW s _ _ _ | .opasgW s _ _ => .var s
 
+/-- `X | 0`, `Y | 0`: generate_arithm returns the register itself -/
+def orZeroReg0 (op : BOp) (x y : RA) : Bool :=
+  op == .bor && x.isReg && (match y with | .of (.const n) => n == 0 | _ => false)
+
+/-- the innermost pair is a real computation: not two constants (folded), not `X | 0` (no code, the register itself) -/
+def LExpr.ok : LExpr → Bool
+  | .pair a op b =>
+    !(a.isConst && b.isConst) &&
+      !(orZeroReg0 op (if op.commutes && a.isConst && !b.isConst then b else a) (if op.commutes && a.isConst && !b.isConst then a else b))
+  | .left e _ _ => e.ok
+  | .right _ _ e => e.ok
+
 def RInFragment : RStmt → Bool
+  | .lin _ e => e.ok
   | .bin _ _ a b => !(a.isConst && b.isConst)
   | .binW _ _ a b => !(a.isConst && b.isConst)
   | .chain _ a _ b1 ops => !(a.isConst && b1.isConst) && !ops.isEmpty
@@ -199,7 +221,18 @@ def chainCode {α : Type} (none : α) (r : Atom → α) : List (BOp × RA) → L
   | [] => []
   | (op, y) :: rest => opCode none r op y ++ chainCode none r rest
 
+/-! ### linear expressions (stage 8): `x − e` keeps the value of `e` in the scratch cell; a commutative `x ∘ e` is
+    computed as `e ∘ x` -/
+
+def linCode {α : Type} (none : α) (r : Atom → α) : LExpr → List (Mn × α)
+  | .pair a op b => let p := rordered op a b; loadA none r p.1 ++ opCode none r op p.2
+  | .left e op y => linCode none r e ++ opCode none r op y
+  | .right x op e =>
+    linCode none r e ++
+      (if op == .sub then [(.STA, r tmp)] ++ loadA none r x ++ [(.SEC, none), (.SBC, r tmp)] else opCode none r op x)
+
 def rtemplate {α : Type} (none : α) (r : Atom → α) (zp : String → Bool) : RStmt → List (Mn × α)
+  | .lin v e => linCode none r e ++ storeA none r v
   | .chain v a op1 b1 ops =>
     let p := rordered op1 a b1
     loadA none r p.1 ++ chainCode none r ((op1, p.2) :: ops) ++ storeA none r v
@@ -246,6 +279,7 @@ def flagsAfter (zp : String → Bool) (fl : Option FRef) : RStmt → Option FRef
   | .opasg v op a => if orZeroReg op v.ra a then asgFlags zp fl v v.ra else some v
   | .inc v | .dec v => some v
   | .chain v _ _ _ _ => some v
+  | .lin v _ => some v
   | .asgW _ _ | .binW _ _ _ _ | .opasgW _ _ _ => none
 
 /-! ### what the source prescribes, on memory and the two register variables -/
@@ -311,7 +345,19 @@ def chainSpec (L : Layout) (σ : SrcSt) (v : LV) (a : RA) (op1 : BOp) (b1 : RA) 
   let r := chainVal L σ (rval L σ p.1) ((op1, p.2) :: ops)
   wr L r.1 v r.2
 
+/-- value of a linear expression and the scratch writes its evaluation causes -/
+def linVal (L : Layout) : SrcSt → LExpr → SrcSt × Byte
+  | σ, .pair a op b => let p := rordered op a b; (tmpWrite L σ op p.2, op.apply (rval L σ p.1) (rval L σ p.2))
+  | σ, .left e op y => let r := linVal L σ e; (tmpWrite L r.1 op y, op.apply r.2 (rval L r.1 y))
+  | σ, .right x op e =>
+    let r := linVal L σ e
+    if op == .sub then
+      let σ2 : SrcSt := { r.1 with mem := r.1.mem.write (L "cctmp") r.2 }
+      (σ2, rval L σ2 x - r.2)
+    else (tmpWrite L r.1 op x, op.apply r.2 (rval L r.1 x))
+
 def rspec (L : Layout) (σ : SrcSt) : RStmt → SrcSt
+  | .lin v e => let r := linVal L σ e; wr L r.1 v r.2
   | .chain v a op1 b1 ops => chainSpec L σ v a op1 b1 ops
   | .asgW s a => asgWSpec L σ s a
   | .binW s op a b => let p := wordered op a b; binWSpec L σ s op p.1 p.2
